@@ -15,11 +15,25 @@ type Disconnect struct {
 	fixed bits
 
 	reasonCode wuint8
+
+	// properties
+	sessionExpiryInterval wuint32
+	reasonString          wstring
+	serverReference       wstring
 	UserProperties
 }
 
 func (p *Disconnect) SetReasonCode(v ReasonCode) { p.reasonCode = wuint8(v) }
 func (p *Disconnect) ReasonCode() ReasonCode     { return ReasonCode(p.reasonCode) }
+
+func (p *Disconnect) SetSessionExpiryInterval(v uint32) { p.sessionExpiryInterval = wuint32(v) }
+func (p *Disconnect) SessionExpiryInterval() uint32     { return uint32(p.sessionExpiryInterval) }
+
+func (p *Disconnect) SetReasonString(v string) { p.reasonString = wstring(v) }
+func (p *Disconnect) ReasonString() string     { return string(p.reasonString) }
+
+func (p *Disconnect) SetServerReference(v string) { p.serverReference = wstring(v) }
+func (p *Disconnect) ServerReference() string     { return string(p.serverReference) }
 
 func (p *Disconnect) String() string {
 	return withReason(p, fmt.Sprintf("%s %v bytes",
@@ -65,6 +79,15 @@ func (p *Disconnect) variableHeader(b []byte, i int) int {
 	return i - n
 }
 
+func (p *Disconnect) properties(b []byte, i int) int {
+	n := i
+	i += p.sessionExpiryInterval.fillProp(b, i, SessionExpiryInterval)
+	i += p.reasonString.fillProp(b, i, ReasonString)
+	i += p.serverReference.fillProp(b, i, ServerReference)
+	i += p.UserProperties.properties(b, i)
+	return i - n
+}
+
 func (p *Disconnect) UnmarshalBinary(data []byte) error {
 	b := &buffer{data: data}
 	b.get(&p.reasonCode)
@@ -73,5 +96,9 @@ func (p *Disconnect) UnmarshalBinary(data []byte) error {
 }
 
 func (p *Disconnect) propertyMap() map[Ident]func() wireType {
-	return map[Ident]func() wireType{}
+	return map[Ident]func() wireType{
+		SessionExpiryInterval: func() wireType { return &p.sessionExpiryInterval },
+		ReasonString:          func() wireType { return &p.reasonString },
+		ServerReference:       func() wireType { return &p.serverReference },
+	}
 }
